@@ -154,7 +154,7 @@ func runC14(c *hx.Ctx) error {
 	if c.Replay != "" {
 		return replayC14(c)
 	}
-	n := c.N(560, 4000)
+	n := c.N(480, 4000)
 	var progs []*program
 	for i := 0; i < n; i++ {
 		switch {
